@@ -24,7 +24,9 @@ TECHNIQUE = ("bounded-exhaustive enumeration of designed pole populations (every
              "(must keep / must reject / not judged) written from the statement; the same oracle on recorded real tables")
 LEVEL_TEXT = ("every population of the stated catalogue and every point of the stated criteria lattice is executed through "
               "the real run() body of each of the six classes and every cell of every result table is judged; real-data "
-              "records are a finite payload alphabet, the criteria lattice around them is complete")
+              "records are a finite payload alphabet, the criteria lattice around them is complete; the form in which the "
+              "criteria values are written (bool / numpy.bool_ / int flag; float / numpy.float64 / int / numpy.int64 limits) "
+              "rotates over the case index: every criteria point is executed in each of the 12 form combinations, on different tables")
 RULE = ("one case = (class variant, pole table, criteria point) executed through run(); non-trivial = the unfiltered table "
         "contains at least one pole that violates exactly one enabled criterion and meets all the others (so that the "
         "effect of a single mask is isolated); distinct by (variant, table index, criteria index) resp. (variant, record, "
@@ -35,6 +37,7 @@ ASSUMPTIONS = [
     "values within relative 1e-9 of a threshold (absolute 1e-9 for the threshold 0) are not judged",
     "designed populations are returned by a stand-in for SSI_poles/pLSCF_poles; everything downstream of that call in run() is the real code; covariance tables of designed populations are injected without calc_unc (the run() body only tests 'Fn_cov is not None')",
     "a cell of the unfiltered solution is a pole iff its frequency is finite",
+    "form of the criteria values (an axis of the space, rotated over the case index so that every criteria point meets every form, not multiplied into it): the conj flag is given as Python bool / numpy.bool_ / Python int, the limits as Python float / numpy.float64 / Python int / numpy.int64 (the integer forms for the integral values 0, 1, 10^6); the oracle is evaluated on the plain values, which are equal to the formed ones",
 ]
 
 NCH = 3
@@ -265,8 +268,29 @@ TABLES_RES = [("Fn", "Fn_poles"), ("Xi", "Xi_poles"), ("Phi", "Phi_poles"), ("La
               ("Fn_cov", "Fn_poles_cov"), ("Xi_cov", "Xi_poles_cov"), ("Phi_cov", "Phi_poles_cov")]
 
 
-def judge(t, vname, unf, poles, res, hc, case, nt_id):
-    """Compare one result with the oracle. Returns number of poles judged."""
+# criterion -> key of the criteria dictionary whose written form is recorded with an isolated rejection (xi_low has the fixed bound 0)
+FORM_KEY = {"conj": "conj", "xi_high": "xi_max", "mpc": "mpc_lim", "mpd": "mpd_lim", "cov": "cov_max"}
+
+
+class _HC(dict):
+    """The plain criteria point, printed together with the form in which it was handed to the algorithm."""
+    form = ""
+
+    def __str__(self):
+        return dict.__repr__(self) + (f" given as [{self.form}]" if self.form else "")
+
+    __repr__ = __str__
+    __format__ = lambda self, spec: str(self)      # noqa: E731
+
+
+def judge(t, vname, unf, poles, res, hc, case, nt_id, forms=None):
+    """Compare one result with the oracle (hc = the plain criteria values; forms = the type names in which they were given,
+    used only for the monitors and the messages). Returns number of poles judged."""
+    forms = forms or {}
+    if forms:
+        plain = hc
+        hc = _HC(plain)
+        hc.form = ", ".join(f"{k}: {forms[k]}" for k in plain if k in forms)
     use_cov = unf["Fn_cov"] is not None
     Fn_r = getattr(res, "Fn_poles", None)
     if Fn_r is None or np.shape(Fn_r) != unf["Fn"].shape:
@@ -316,6 +340,9 @@ def judge(t, vname, unf, poles, res, hc, case, nt_id):
                 if others_ok:
                     nontrivial = True
                     t.outcomes[f"only:{failed[0]}:{vname}"] += 1
+                    if failed[0] in FORM_KEY and FORM_KEY[failed[0]] in forms and not vname.startswith("B/"):
+                        # the single effective criterion was written in this form
+                        t.outcomes[f"only:{failed[0]}:{vname}/{forms[FORM_KEY[failed[0]]]}"] += 1
             if is_kept:
                 why = "+".join(failed)
                 t.violation(f"unsound:{why}:{vname}",
@@ -328,6 +355,9 @@ def judge(t, vname, unf, poles, res, hc, case, nt_id):
             judged += 1
             if is_kept:
                 t.outcomes["kept-as-required"] += 1
+                if not hc["conj"] and p["weak"] is False and "conj" in forms and not vname.startswith("B/"):
+                    # criterion switched off (in this form): a pole without conjugate that meets all the others has to stay
+                    t.outcomes[f"kept-unpaired:conj-off:{vname}/{forms['conj']}"] += 1
             else:
                 t.violation(f"incomplete:{vname}",
                             f"{vname}: pole [{p['i']},{p['o']}] meets every enabled criterion but was blanked: xi={p['xi']:.6g} "
@@ -435,12 +465,63 @@ def _rotated(d):
     return {key: d[key] for key in keys}
 
 
-def make_alg(variant, hc, which):
+# Form of the criteria values. The hard-criteria dictionary is an untyped mapping: whatever the user writes reaches run()
+# unconverted. A flag coming out of a numpy / pandas comparison is a numpy.bool_, one read from a table an int; a limit may be a
+# numpy scalar or, for the integral values (xi_max = 1, mpc_lim in {0, 1}, mpd_lim = 0, cov_max = 10^6), an integer.
+# Every form below is EQUAL (==) to the plain value, so the criteria point - and with it the oracle - is the same.
+FLAG_FORMS = ("bool", "numpy.bool_", "int")
+LIMIT_FORMS = ("float", "numpy.float64", "int-where-integral", "numpy.int64-where-integral")
+N_FORMS = len(FLAG_FORMS) * len(LIMIT_FORMS)
+
+
+def _formed(hc, form):
+    """Same mapping, same values, written in form number `form` (0 = Python bool and Python floats, the form of the defaults)."""
+    ff = form % len(FLAG_FORMS)
+    lf = (form // len(FLAG_FORMS)) % len(LIMIT_FORMS)
+    out = {}
+    for key, v in hc.items():
+        if key == "conj":
+            out[key] = (bool(v), np.bool_(v), int(bool(v)))[ff]
+            continue
+        integral = abs(float(v)) < 2.0 ** 53 and float(v).is_integer()
+        if lf == 0:
+            w = float(v)
+        elif lf == 1:
+            w = np.float64(v)
+        elif lf == 2:
+            w = int(v) if integral else float(v)
+        else:
+            w = np.int64(int(v)) if integral else np.float64(v)
+        assert w == v, (key, v, w)
+        out[key] = w
+    return out
+
+
+def form_text(form):
+    return f"conj as {FLAG_FORMS[form % len(FLAG_FORMS)]}, limits as {LIMIT_FORMS[(form // len(FLAG_FORMS)) % len(LIMIT_FORMS)]}"
+
+
+def type_name(x):
+    """Name of the form in which a criterion value reached the run parameters (read back from the algorithm object)."""
+    if isinstance(x, np.bool_):
+        return "numpy.bool_"
+    if type(x) is bool:
+        return "bool"
+    if type(x) is int:
+        return "int"
+    if type(x) is float:
+        return "float"
+    if isinstance(x, np.generic):
+        return "numpy." + type(x).__name__
+    return type(x).__name__
+
+
+def make_alg(variant, hc, which, form=0):
     import pyoma2.algorithms as algs
 
     vname, cname, kind, family, with_cov = variant
     cls = getattr(algs, cname)
-    hc = _rotated(hc)
+    hc = _formed(_rotated(hc), form)
     if family == "ssi":
         if which == "A":
             return cls(name="a", br=2, ordmax=ORDMAX_A, hc=dict(hc))
@@ -455,11 +536,13 @@ def make_alg(variant, hc, which):
 _TABLES = ("Fn_poles", "Xi_poles", "Phi_poles", "Lambds", "Fn_poles_cov", "Xi_poles_cov", "Phi_poles_cov", "Lab")
 
 
-def run_one(variant, hc, seed, which, rec=None):
+def run_one(variant, hc, seed, which, rec=None, form=0):
     """Run the algorithm through its setup - twice on the same object: the second run must give the very same tables (the
     criteria given by the user are still in force, nothing is consumed by a run). _CUR['rerun'] reports the comparison."""
     setup = get_setup(variant[2], seed, which, rec)
-    alg = make_alg(variant, hc, which)
+    alg = make_alg(variant, hc, which, form)
+    # the forms as they are held by the run parameters (what run() will read), for the vacuity monitors
+    _CUR["forms"] = {k: type_name(v) for k, v in alg.run_params.hc.items()}
     setup.add_algorithms(alg)
     setup.run_by_name("a")
     first = alg.result
@@ -481,7 +564,12 @@ def run_one(variant, hc, seed, which, rec=None):
 _CFG = {}
 
 
-def case_A(t, variant, vi, names, ti, hcs, seed, cat, only_g=None):
+def form_index(*idx):
+    """Form of the criteria values for a case: rotates with the case indices (class variant, table / record, criteria point)."""
+    return sum(int(i) for i in idx) % N_FORMS
+
+
+def case_A(t, variant, vi, names, ti, hcs, seed, cat, only_g=None, form=None):
     vname, cname, kind, family, with_cov = variant
     unf = designed(cat, family, with_cov, names)
     poles = analyse(unf)
@@ -490,14 +578,18 @@ def case_A(t, variant, vi, names, ti, hcs, seed, cat, only_g=None):
     for g, hc in enumerate(hcs):
         if only_g is not None and g != only_g:
             continue
-        case = {"driver": "A", "variant": vname, "items": list(names), "hc": hc, "seed": seed}
+        fm = form_index(vi, ti, g) if form is None else form
+        case = {"driver": "A", "variant": vname, "items": list(names), "hc": hc, "form": fm, "form_text": form_text(fm), "seed": seed}
         t.states += 1
         t.evaluations += 1
         try:
-            res = run_one(variant, hc, seed, "A")
+            res = run_one(variant, hc, seed, "A", form=fm)
         except Exception as e:
-            t.violation(f"raises:{type(e).__name__}:{vname}.run", f"{vname}.run raised {type(e).__name__}: {e} on a designed population {names}; hc={hc}", case)
+            t.violation(f"raises:{type(e).__name__}:{vname}.run", f"{vname}.run raised {type(e).__name__}: {e} on a designed population {names}; hc={hc} given as [{form_text(fm)}]", case)
             continue
+        forms = dict(_CUR.get("forms") or {})
+        t.outcomes[f"A:form:conj={forms.get('conj')}"] += 1
+        t.outcomes[f"A:form:limits={LIMIT_FORMS[(fm // len(FLAG_FORMS)) % len(LIMIT_FORMS)]}"] += 1
         if _CUR.get("rerun") is None:
             pass
         elif _CUR.get("rerun"):
@@ -507,10 +599,10 @@ def case_A(t, variant, vi, names, ti, hcs, seed, cat, only_g=None):
             t.outcomes["rerun-identical"] += 1
         t.transitions += 1
         t.validated += 1
-        n = judge(t, vname, unf, poles, res, hc, case, (vi * 10000 + ti) * 1000 + g)
+        n = judge(t, vname, unf, poles, res, hc, case, (vi * 10000 + ti) * 1000 + g, forms)
         t.extra["poles_judged"] = t.extra.get("poles_judged", 0) + n
         if ti % 97 == 0 and g == 7 and vi < 6:
-            t.sample({"driver": "A", "variant": vname, "table": list(names), "hc": hc,
+            t.sample({"driver": "A", "variant": vname, "table": list(names), "hc": hc, "given_as": forms,
                       "poles": [{"cell": [p["i"], p["o"]], "xi": round(p["xi"], 5), "MPC": round(p["mpc"], 4), "MPD": round(p["mpd"], 4),
                                  "retained": bool(not np.isnan(res.Fn_poles[p["i"], p["o"]]))} for p in poles]})
 
@@ -592,18 +684,20 @@ def lattice_B(tier, variant, seed, rec):
     return [dict(h, cov_max=c) for h in hcs for c in (mid, 1e6)]
 
 
-def case_B(t, variant, vi, rec, g, hc, seed):
+def case_B(t, variant, vi, rec, g, hc, seed, form=None):
     vname = variant[0]
-    case = {"driver": "B", "variant": vname, "record": rec, "hc": hc, "seed": seed}
+    fm = form_index(vi, rec, g) if form is None else form
+    case = {"driver": "B", "variant": vname, "record": rec, "hc": hc, "form": fm, "form_text": form_text(fm), "seed": seed}
     t.states += 1
     t.evaluations += 1
     with Patched("record"):
         _CUR.pop("rec", None)
         try:
-            res = run_one(variant, hc, seed, "B", rec)
+            res = run_one(variant, hc, seed, "B", rec, form=fm)
         except Exception as e:
-            t.violation(f"raises:{type(e).__name__}:{vname}.run", f"{vname}.run raised {type(e).__name__}: {e} on record {rec}; hc={hc}", case)
+            t.violation(f"raises:{type(e).__name__}:{vname}.run", f"{vname}.run raised {type(e).__name__}: {e} on record {rec}; hc={hc} given as [{form_text(fm)}]", case)
             return
+        forms = dict(_CUR.get("forms") or {})
         unf = _CUR.get("rec")
     if unf is None:
         t.violation(f"seam-not-reached:{vname}", f"{vname}.run did not call the pole routine through the algorithm module", case)
@@ -619,11 +713,13 @@ def case_B(t, variant, vi, rec, g, hc, seed):
     t.validated += 1
     poles = analyse(unf)
     t.outcomes[f"B:poles-in-unfiltered:{'some' if poles else 'none'}"] += 1
-    n = judge(t, "B/" + vname, unf, poles, res, hc, case, ("B", vi, rec, g))
+    t.outcomes[f"B:form:conj={forms.get('conj')}"] += 1
+    t.outcomes[f"B:form:limits={LIMIT_FORMS[(fm // len(FLAG_FORMS)) % len(LIMIT_FORMS)]}"] += 1
+    n = judge(t, "B/" + vname, unf, poles, res, hc, case, ("B", vi, rec, g), forms)
     t.extra["poles_judged"] = t.extra.get("poles_judged", 0) + n
     if g == 5 and rec == 0 and vname in ("SSIcov+cov", "pLSCF"):
         keptn = int(np.sum(~np.isnan(res.Fn_poles)))
-        t.sample({"driver": "B", "variant": vname, "record": rec, "hc": hc, "poles_unfiltered": len(poles), "poles_retained": keptn,
+        t.sample({"driver": "B", "variant": vname, "record": rec, "hc": hc, "given_as": forms, "poles_unfiltered": len(poles), "poles_retained": keptn,
                   "table_shape": list(unf["Fn"].shape)})
 
 
@@ -659,11 +755,15 @@ def explore(ctx):
             "criteria_lattice": {"conj": [True, False], "xi_max": sorted({h["xi_max"] for h in lat[False]}),
                                  "mpc_lim": [0.0, 0.5, 0.99, "1.0 (range end)"], "mpd_lim": ["0.0 (range end)", 0.01, 0.3, HALF_PI], "xi_max range end": 1e-3, "cov_max (cov variants)": [1e-6, 1e6],
                                  "points": {"without_cov": len(lat[False]), "with_cov": len(lat[True])}},
+            "criteria_value_forms": {"conj": list(FLAG_FORMS), "limits": list(LIMIT_FORMS),
+                                     "rotation": f"form = (variant index + table index + criteria index) mod {N_FORMS}: every criteria point in every form "
+                                                 "combination (on different tables), every table in every form combination (at different criteria points)"},
         },
         "driver_B": {"records": nrec, "samples": B_N, "fs": FS_B, "ssi": {"br": B_BR, "ordmax": B_ORDMAX_SSI, "nb": B_NB},
                      "plscf": {"ordmax": B_ORDMAX_PL, "nxseg": B_NXSEG, "method_SD": B_PL_METHOD},
                      "class_variants": [v[0] for v in VARIANTS_B],
-                     "criteria_lattice": "same as driver A; cov_max in {geometric middle of the recorded covariances, 1e6}"},
+                     "criteria_lattice": "same as driver A; cov_max in {geometric middle of the recorded covariances, 1e6}",
+                     "criteria_value_forms": f"as driver A, form = (variant index + record index + criteria index) mod {N_FORMS}"},
     }
     # driver B first (long items), then A
     items_B = [(vi, r) for r in range(nrec) for vi in range(len(VARIANTS_B))]
@@ -681,6 +781,17 @@ def explore(ctx):
     for v in VARIANTS_B:
         for c in ("xi_high", "mpc", "mpd") + (("cov",) if v[4] else ()):
             req.append(f"only:{c}:B/{v[0]}")
+    # the form axis: an isolated rejection by each criterion written in each of its forms, for every class variant of driver A
+    # (xi_max = 1 rejects nothing and cov_max = 10^6 rejects nothing of the catalogue, so these two have no effective integer form;
+    # mpc_lim = 1 and mpd_lim = 0 are the effective integral limits); the conj flag switched off in each form keeps unpaired poles
+    eff = {"conj": FLAG_FORMS, "xi_high": ("float", "numpy.float64"), "cov": ("float", "numpy.float64"),
+           "mpc": ("float", "numpy.float64", "int", "numpy.int64"), "mpd": ("float", "numpy.float64", "int", "numpy.int64")}
+    for v in variants:
+        for c in ("conj", "xi_high", "mpc", "mpd") + (("cov",) if v[4] else ()):
+            req += [f"only:{c}:{v[0]}/{f}" for f in eff[c]]
+        req += [f"kept-unpaired:conj-off:{v[0]}/{f}" for f in FLAG_FORMS]
+    for drv in "AB":
+        req += [f"{drv}:form:conj={f}" for f in FLAG_FORMS] + [f"{drv}:form:limits={f}" for f in LIMIT_FORMS]
     ctx.require("rerun-identical", "kept-as-required", "rejected-as-required", "B:poles-in-unfiltered:some", *req)
 
 
@@ -693,7 +804,7 @@ def replay(case):
     vi = [v[0] for v in VARIANTS_T].index(vname)
     if case["driver"] == "A":
         with Patched("replace"):
-            case_A(t, variant, vi, tuple(case["items"]), 0, [hc], seed, catalogue(seed))
+            case_A(t, variant, vi, tuple(case["items"]), 0, [hc], seed, catalogue(seed), form=int(case.get("form", 0)))
     else:
-        case_B(t, variant, vi, case["record"], 0, hc, seed)
+        case_B(t, variant, vi, case["record"], 0, hc, seed, form=int(case.get("form", 0)))
     return t
